@@ -849,7 +849,10 @@ impl Iterator for Step {
     fn next(&mut self) -> Option<Self::Item> {
         let result = self.iter.next();
         for _ in 0..self.step - 1 {
-            self.iter.next();
+            // An error thrown while producing a stepped-over value still has to be reported
+            if let Some(error @ Output::Error(_)) = self.iter.next() {
+                return Some(error);
+            }
         }
         result
     }
